@@ -14,10 +14,11 @@ and typed internal ('i', whatever their type was — also the 'size' row of an i
 The window of the wrapper is applied by the code to the inner assets BEFORE their problems are built
 (and restored afterwards); it is therefore part of the inner builders' inputs, not of this function.
 
-Not modelled: (1) the `TypeError` of `var_name + '__' + asset` when an inner asset has non-string
-variable names (`OrderBook`: integers) — `structuredE` takes that fact as a flag; (2) an inner node
-whose own name already has the form `<name>_internal_<other inner node>` (the code's renaming loop
-would rename such rows twice).
+`var_name` is converted to a string before the suffix is appended (order numbers of an `OrderBook`
+become "0__ob"); the transport format carries variable names as strings already.
+
+Not modelled: an inner node whose own name already has the form `<name>_internal_<other inner node>`
+(the code's renaming loop would rename such rows twice).
 -/
 namespace EAO
 
@@ -42,10 +43,5 @@ def structured (name : String) (ext : List String) (inner : List AssetProblem) (
   let P := assemble inner gridI ext
   { name := name, nodes := ext, c := P.c, l := P.l, u := P.u, rows := P.rows.map Row.nToS,
     mapping := P.mapping.map (structuredMapRow name ext) }
-
-/-- with the `TypeError` raised when some inner variable name is not a string -/
-def structuredE (nonStrVarName : Bool) (name : String) (ext : List String) (inner : List AssetProblem)
-    (gridI : List Nat) : Except String AssetProblem :=
-  if nonStrVarName then .error "type" else .ok (structured name ext inner gridI)
 
 end EAO
